@@ -518,6 +518,9 @@ class MapGen:
             r.shuffle(pools[k])
 
         def fresh_names(nk):
+            key = "tag" if nk == "tagpascal" else nk
+            if nk not in ("ident", "skip") and not pools[key]:
+                nk = "ident"
             if nk in ("ident", "skip"):
                 n = pools["ident"].pop()
                 return n, n
@@ -536,6 +539,8 @@ class MapGen:
             kind = self.pick(kinds)
             nk = self.pick(names)
             a, b = self.type_pair(kind)
+            if not pools["ident"]:
+                break
             sn, dn = fresh_names(nk)
             if sn in used_s or dn in used_d:
                 continue
